@@ -405,7 +405,9 @@ such that, for
   C12's model of the grouping loop of `compile` builds from them;
 * `hvalid` — on every channel the pulses are sorted, do not overlap, and every idle gap is `0` or larger than the
   `time_tol` of the source (C12's `ValidG`; a gap below the tolerance is C12's recorded resolution limit);
-* `hdisj` — pulses whose control Hamiltonians act on a common qubit do not overlap in time (C11 `timetable_valid`);
+* `hdisj` — instructions whose gates share a qubit do not overlap in time (`GateDisjoint`: C11 `timetable_valid`; the control
+  Hamiltonian of a compiled instruction acts on qubits of its gate — `compile_chanQubits` —, so pulses on a common qubit
+  are disjoint in time);
 * `hdep` — the start times respect the dependencies (C11 `dep_respected`, as in `end_to_end_exp_partial`);
 
 C12's source-driven model of `compile` returns for every label the closed-form channel `chans`, and — if the distinct
@@ -436,7 +438,7 @@ theorem end_to_end_pulses_partial (circular pre : Bool) (N : ℕ) (ρ : ℕ → 
         Concat.schedule (isQ.map (toC enc)) sch = .ok (cis, st) →
         Concat.groupPulses (cis.zip st) [] = some groups → groups ≠ [] →
         (∀ g ∈ groups, Concat.ValidG (Gen.concatSrc.timeTol (groups.map (·.2))) 0 g.2) →
-        PulseDisjoint circular N isQ (schedStarts (isQ.map (toC enc)) sch) →
+        GateDisjoint isQ (schedStarts (isQ.map (toC enc)) sch) →
         DepRespected is (fun k => (((schedStarts (isQ.map (toC enc)) sch).getD k 0 : ℚ) : ℝ)) →
         ∀ (tol : Rat), 0 ≤ tol →
         ∃ chans : List (List Rat × List Rat),
@@ -451,8 +453,12 @@ theorem end_to_end_pulses_partial (circular pre : Bool) (N : ℕ) (ρ : ℕ → 
   refine ⟨is, φ, h1, h4, ?_⟩
   intro isQ his hpos enc henc sch cis st groups hs hgr hgn hvalid hdisj hdep tol htol
   subst his
+  have hq : ∀ i ∈ isQ, ∀ q ∈ chanQubits circular N i, q ∈ i.gate.qubits := by
+    intro i hi q hq
+    exact compile_chanQubits circular N ρ P phase0 out (transpile_native_ok circular pre N gs out hg h2q ht) _ φ h1
+      (castI i) (List.mem_map.mpr ⟨i, hi, rfl⟩) q hq
   obtain ⟨chans, hc, _, hprod⟩ := pulses_product circular N enc henc tol htol isQ ws h2 hpos sch cis st groups hs hgr hgn
-    hvalid hdisj
+    hvalid (pulseDisjoint_of_gateDisjoint circular N isQ _ hq hdisj)
   refine ⟨chans, hc, ?_⟩
   intro hsep
   obtain ⟨T, rows, hfull, heq⟩ := hprod hsep
@@ -469,7 +475,7 @@ theorem end_to_end_pulses_partial (circular pre : Bool) (N : ℕ) (ρ : ℕ → 
 
 -- non-vacuity of the schedule hypotheses: RX on qubit 0 and RZ on qubit 1 in parallel, then a second RX on qubit 0 (same
 -- channel, no gap), open chain of 2, any injective label numbering: `_schedule` accepts, the grouping loop builds two
--- channels, both `ValidG` at the source's `time_tol`, pulses on a common qubit disjoint in time, durations positive
+-- channels, both `ValidG` at the source's `time_tol`, instructions on a common qubit disjoint in time, durations positive
 example (enc : String × Int → ℕ) (henc : Function.Injective enc) :
     let isQ : List (Instr Rat) := [⟨⟨.RX, [0], [], .pi8 4⟩, some ("sx", 0), 1/4, 1/2⟩,
       ⟨⟨.RZ, [1], [], .pi8 4⟩, some ("sz", 1), 1/4, 1/2⟩, ⟨⟨.RX, [0], [], .pi8 2⟩, some ("sx", 0), 1/4, 1/4⟩]
@@ -479,7 +485,7 @@ example (enc : String × Int → ℕ) (henc : Function.Injective enc) :
     Concat.schedule (isQ.map (toC enc)) sch = .ok (isQ.map (toC enc), [0, 0, 1/2]) ∧
     Concat.groupPulses ((isQ.map (toC enc)).zip [0, 0, 1/2]) [] = some groups ∧
     (∀ g ∈ groups, Concat.ValidG (Gen.concatSrc.timeTol (groups.map (·.2))) 0 g.2) ∧
-    PulseDisjoint false 2 isQ (schedStarts (isQ.map (toC enc)) sch) ∧ (∀ i ∈ isQ, 0 < i.dur) := by
+    GateDisjoint isQ (schedStarts (isQ.map (toC enc)) sch) ∧ (∀ i ∈ isQ, 0 < i.dur) := by
   intro isQ sch groups
   have hne : enc ("sz", 1) ≠ enc ("sx", 0) := fun h => by have := henc h; simp at this
   refine ⟨?_, ?_, ?_, ?_, ?_⟩
@@ -511,7 +517,7 @@ example (enc : String × Int → ℕ) (henc : Function.Injective enc) :
     interval_cases a <;> interval_cases b <;> first | exact absurd rfl hab | skip
     all_goals
       revert hsh
-      simp only [isQ, List.getElem_cons_zero, List.getElem_cons_succ]
+      simp only [isQ, Shares, List.getElem_cons_zero, List.getElem_cons_succ]
       decide +kernel
   · intro i hi
     simp only [isQ, List.mem_cons, List.not_mem_nil, or_false] at hi
